@@ -24,6 +24,44 @@ theorem i32_pow (x : Int) (n : Nat) : i32 (x ^ n) = (i32 x) ^ n := by
   | zero => simp [i32]
   | succ n ih => rw [Int.pow_succ, i32_mul, ih, BitVec.pow_succ]
 
+theorem sq_pow (x : I32) (m : Nat) : (x * x) ^ m = x ^ (2 * m) := by
+  induction m with
+  | zero => simp
+  | succ m ih =>
+    rw [BitVec.pow_succ, ih, show 2 * (m + 1) = (2 * m + 1) + 1 by omega, BitVec.pow_succ, BitVec.pow_succ,
+      BitVec.mul_assoc]
+
+theorem powLoop_eq : ∀ (f n : Nat) (base acc : I32), n < 2 ^ f → powLoop base acc n f = acc * base ^ n := by
+  intro f
+  induction f with
+  | zero =>
+    intro n base acc h
+    have : n = 0 := by simpa using h
+    subst this
+    simp [powLoop]
+  | succ f ih =>
+    intro n base acc h
+    unfold powLoop
+    by_cases h0 : n = 0
+    · subst h0; simp
+    · simp only [h0, if_false]
+      rw [ih (n / 2) (base * base) _ (by rw [Nat.pow_succ] at h; omega), sq_pow]
+      by_cases hodd : n % 2 = 1
+      · simp only [hodd, if_true]
+        have : n = 2 * (n / 2) + 1 := by omega
+        conv => rhs; rw [this, BitVec.pow_succ]
+        rw [BitVec.mul_assoc, BitVec.mul_comm base]
+      · simp only [hodd, if_false]
+        have : n = 2 * (n / 2) := by omega
+        conv => rhs; rw [this]
+
+theorem ipow_eq (a b : I32) : ipow a b = if b.toInt < 0 then 0 else a ^ b.toNat := by
+  unfold ipow
+  split
+  · rfl
+  · rw [powLoop_eq 32 b.toNat a 1 b.isLt]
+    simp
+
 theorem slt_iff (a b : I32) : a.slt b = decide (a.toInt < b.toInt) := by
   simp [BitVec.slt]
 
